@@ -66,7 +66,7 @@ class StandardAtmosphere:
         for i, H in enumerate(H_array):
             b = 0
 
-            while b < 6 and H > self._H_b[b]:
+            while b < 7 and H > self._H_b[b]:
                 T_M_b = self._T_0+self._T_M_b[b]+273.15 # Layer base temp
                 H_lim = min(H, self._H_b[b+1])
                 if abs(self._L_M_b[b])<1e-6:
@@ -157,15 +157,15 @@ class StandardAtmosphere:
             single = False
             h_array = np.asarray(h)
 
-        # Check the height is not too high
-        if self._unit_sys == "SI" and (h_array>86000.0).any():
-            raise IOError("Standard atmosphere only goes up to 86 km.")
-
         # Convert to SI if needs be
         if self._unit_sys == "English":
             Z = h_array*0.3048
         else:
             Z = h_array
+
+        # Check the height is not too high
+        if (Z>86000.0).any():
+            raise IOError("Standard atmosphere only goes up to 86 km.")
 
         # Convert back to single value
         if single:
